@@ -194,6 +194,14 @@ class Scenario:
                 ops.append((40_000, lambda: w.spawn(op_register(A, "S1", S1))))
                 checkpoints.append(40_000 + 800 + SETTLE_MS)
                 checkpoints.append(40_000 + 800 + SETTLE_MS + 5_400_000)
+            elif self.name == "flap":
+                # the service goes away and comes back within a few seconds; ninety minutes later it is still registered
+                ops.append((0, lambda: start_browser("B/a", B, TA)))
+                ops.append((1000, lambda: w.spawn(op_register(A, "S1", S1))))
+                ops.append((3500, lambda: w.spawn(op_unregister(A, "S1"))))
+                ops.append((5000, lambda: w.spawn(op_register(A, "S1", S1))))
+                checkpoints.append(5000 + 800 + SETTLE_MS)
+                checkpoints.append(5000 + 800 + SETTLE_MS + 5_400_000)
             elif self.name == "leave":
                 # the service is withdrawn (or its host closed) a few tens of milliseconds after a browser elsewhere started:
                 # the reply to the browser's first query and the goodbyes are on the link together
@@ -307,7 +315,7 @@ def plan(tier: str) -> List[Tuple[str, Dict[str, Any], int]]:
             ("leave", {"browse_at": 1850, "after": 450, "how": "close", "late": True, "qm": True}, 1),
             ("leave", {"browse_at": 5000, "after": 30, "how": "unregister", "late": True, "socks": "dual"}, 2),
             ("leave", {"browse_at": 5000, "after": 130, "how": "close", "late": True, "socks": "dual"}, 2),
-            ("idle", {"browse_at": 0}, 1),
+            ("idle", {"browse_at": 0}, 1), ("flap", {"browse_at": 0}, 1),
             ("three", {"browse_at": 500, "long": True}, 1), ("three", {"browse_at": 6000, "late": True, "long": True}, 1),
             # the same link with IPv6-only hosts, and with hosts that send on an IPv4 and an IPv6 socket (every datagram twice)
             ("unregister", {"browse_at": 0, "socks": "single6"}, 2), ("update-close", {"browse_at": 5000, "late": True, "socks": "single6"}, 2),
